@@ -41,6 +41,21 @@ func genC08(t *rapid.T) c08Case {
 			c.AfterProbe = rapid.Int64Range(1, 1_000_000).Draw(t, "settleRTT")
 		}
 	}
+	if rapid.IntRange(0, 5).Draw(t, "defaults") == 0 {
+		// short constructors / parameters left to the library defaults (monotonicity needs no knowledge of their values)
+		switch c.Cfg.Algo {
+		case "vegas":
+			c.Cfg.Ctor = "default"
+		case "gradient2":
+			if rapid.Bool().Draw(t, "g2default") {
+				c.Cfg.Ctor = "default"
+			} else {
+				c.Cfg.Unset = rapid.SampledFrom([][]string{{"smoothing"}, {"max"}, {"min", "max"}, {"initial", "min", "max"}, {"smoothing", "max"}}).Draw(t, "g2unset")
+			}
+		case "gradient":
+			c.Cfg.Unset = rapid.SampledFrom([][]string{{"smoothing"}, {"tol"}, {"max"}, {"min"}, {"initial"}, {"smoothing", "tol", "max"}}).Draw(t, "gunset")
+		}
+	}
 	if rapid.IntRange(0, 4).Draw(t, "hasPrefix") > 0 {
 		c.Prefix = genSamples(t, c.Cfg, 120)
 	}
@@ -150,6 +165,9 @@ func runC08(_ *testing.T, c c08Case) kit.Outcome {
 	out := kit.Outcome{Labels: []string{"algo:" + c.Cfg.Algo}}
 	if probed {
 		out.Labels = append(out.Labels, "final-right-after-probe")
+	}
+	if c.Cfg.Ctor != "" || len(c.Cfg.Unset) > 0 {
+		out.Labels = append(out.Labels, "defaults-in-play")
 	}
 	if !c.Final.Drop && 2*c.Final.inflight(a.pre) < a.pre {
 		out.Labels = append(out.Labels, "final-app-limited")
